@@ -929,11 +929,12 @@ impl G {
             if self.w.errored || self.w.dead {
                 break;
             }
-            match self.rng.below(6) {
+            match self.rng.below(8) {
                 0 => {
                     let id = *self.rng.pick(&cands);
                     self.open_channel(Some(id));
                 }
+                6 | 7 => self.open_channel(None),
                 1 | 2 => {
                     if let Some(ch) = self.some_open() {
                         self.client_send(ch);
